@@ -276,7 +276,7 @@ package sizes
 //@   ensures same(result0, js0) && result1 == js1
 
 //@ property C19: NewFootnotes (*Footnotes).CreateCitation (*item).Emit (*section).Emit (*indentedItem).Emit (*HistorySize).TableString
-//@ property C11: (*item).levelOfConcern (*item).Emit (*item).MarshalJSON (*item).Footnote lemma/threshold_monotone lemma/verbose_shows_all (*table).indented (*table).subTable (*table).addSection (*section).Emit (*indentedItem).Emit (*HistorySize).TableString (*HistorySize).JSON (*table).formatSectionHeader (*table).emitBlankRow
+//@ property C11: (*item).levelOfConcern (*item).Emit (*item).MarshalJSON (*item).Footnote lemma/threshold_monotone lemma/verbose_shows_all (*table).indented (*table).subTable (*table).addSection (*section).Emit (*indentedItem).Emit (*HistorySize).TableString (*HistorySize).JSON (*table).formatSectionHeader (*table).emitBlankRow structural/items-well-formed
 //@ property C07: (*table).formatRow
 //@ property C05: (*item).levelOfConcern (*item).MarshalJSON
 //@ property C09: (*TreeSize).addDescendent (*TreeSize).addBlob (*TreeSize).addLink (*TreeSize).addSubmodule (*HistorySize).recordBlob (*HistorySize).recordTree (*HistorySize).recordCommit (*HistorySize).recordTag
@@ -617,7 +617,9 @@ package sizes
 // emitted into, when a section header / blank row / sub-table body is
 // appended, and when the "no problems" line replaces the table.
 // A-ITEMS: items are built by contents() with a positive finite reference
-// value and one of the package's humaners, and are never top-level contents.
+// value and one of the package's humaners, and are never top-level contents
+// (decided on the SSA form by structural/items-well-formed; only the bounds on
+// the indentation depth remain assumed).
 //@ iface tableContents.Emit
 //@   requires wfFootnotes(t.footnotes) && t.nameStyle >= 0 && t.nameStyle <= 2 && t.indent >= -1
 //@   modifies fieldmem(Footnotes.footnotes), mapsof(Footnotes)
